@@ -58,7 +58,8 @@ def _scalar(x):
 class Encoder(object):
     """python values -> (type name, == class) within one trace"""
 
-    def __init__(self):
+    def __init__(self, mapper=False):
+        self.mapper = mapper    # a mapper store: the value of a slot is its key -> index dict
         self.vals = {}
         self.keys = {}
         self.mks = {}
@@ -143,7 +144,7 @@ class Encoder(object):
         else:                       # e.g. the CLEARED marker stored in keys[]
             i, k = -1, (key if isinstance(key, int) and not isinstance(key, bool) else -2)
         m = []
-        if isinstance(value, dict):
+        if self.mapper and isinstance(value, dict):
             val = {'t': 'dict', 'v': 0}
             for mk, idx in value.items():
                 ix = self.index(idx)
@@ -165,7 +166,7 @@ class StoreLog(object):
         self.stores = []
 
     def register(self, name, data_type, default_value):
-        enc = Encoder()
+        enc = Encoder(mapper=dt_name(data_type) == 'mapper')
         rec = {'sid': len(self.stores), 'name': name, 'dt': dt_name(data_type),
                'data_type': repr(data_type),
                'dflt': dict(NONE) if default_value is None else enc.value(default_value),
